@@ -36,7 +36,9 @@ Inductive mode :=
 | MEmpty                    (* a new empty dict *)
 | MDrop                     (* not carried over *)
 | MCopyND                   (* value.copy(data=False): the recipe with _use_data=False *)
-| MCompsND.                 (* the _components dict under _use_data=False *)
+| MCompsND                  (* the _components dict under _use_data=False *)
+| MView                     (* Constructs.shallow_copy(): new collection, new per-type dicts, SAME constructs *)
+| MCopyPV.                  (* seeded variant of Constructs.copy: filter history carried over by shallow_copy() *)
 
 (* components, by name (cfdm/core/abstract/*.py, cfdm/*.py __init__ methods) *)
 Definition comp_mode (k : string) : mode :=
@@ -110,6 +112,13 @@ Definition sel (m : mode) (cls k : string) : option mode :=
       else if String.eqb k "_components" then
         match attr_mode cls k with Some MComps => Some MCompsND | o => o end
       else attr_mode cls k
+  | MView =>                            (* constructs.py shallow_copy / core/constructs.py copy=False *)
+      if String.eqb k "_constructs" then Some (MEach MShallow)
+      else if String.eqb k "_prefiltered" then Some MView
+      else attr_mode "Constructs" k
+  | MCopyPV =>
+      if String.eqb cls "Constructs" && String.eqb k "_prefiltered" then Some MView
+      else attr_mode cls k
   | MCompsND =>
       if String.eqb k "'data'" then None
       else if String.eqb k "'bounds'" then Some MCopyND
@@ -117,6 +126,10 @@ Definition sel (m : mode) (cls k : string) : option mode :=
       else if String.eqb k "'constructs'" then Some MCopyND
       else match comp_mode k with MDrop => None | mk => Some mk end
   end.
+
+(* modes under which a dict / object cell is re-created (not shared, not emptied) *)
+Definition plain (m : mode) : bool :=
+  match m with MShare | MDrop | MEmpty => false | _ => true end.
 
 (* does copying a buffer by m make a new buffer? *)
 Definition buf_fresh (m : mode) : bool :=
@@ -261,6 +274,89 @@ Definition set_data_inplace (x d : obj) : obj :=
 
 Definition set_data_new (old : bool) (x d : obj) (n : nat) : obj :=
   set_data_inplace (snd (copy x (if old then MCopyND else MCopy) n)) d.
+
+(* ---- operations as writes along paths ---------------------------------------
+   A method body that works on the object d handed to it reaches the cells it
+   writes by attribute / component / key look-ups starting from d. *)
+Fixpoint lookup (p : list string) (t : obj) : option obj :=
+  match p with
+  | [] => Some t
+  | k :: r => match t with
+              | Node _ _ kids => match assoc k kids with
+                                 | Some c => lookup r c
+                                 | None => None
+                                 end
+              | _ => None
+              end
+  end.
+
+(* every cell on the path, and the cell it ends in, is re-created when t is
+   copied by m (no step crosses a shared / shallow / dropped entry) *)
+Fixpoint path_copied (m : mode) (p : list string) (t : obj) {struct p} : bool :=
+  match t with
+  | Node _ cls kids =>
+      plain m &&
+      match p with
+      | [] => true
+      | k :: r => match sel m cls k, assoc k kids with
+                  | Some mk, Some c => path_copied mk r c
+                  | _, _ => false
+                  end
+      end
+  | _ => false
+  end.
+
+Record pw := { pw_path : list string; pw_key : string; pw_val : option obj }.   (* None = delete *)
+
+Definition resolve (d : obj) (w : pw) : list wr :=
+  match lookup (pw_path w) d with
+  | Some (Node a _ _) => match pw_val w with
+                         | Some v => [WSet a (pw_key w) v]
+                         | None => [WDel a (pw_key w)]
+                         end
+  | _ => []
+  end.
+
+Definition resolve_all (d : obj) (ws : list pw) : list wr := flat_map (resolve d) ws.
+
+(* the shape every operation with an in-place switch must have when the
+   switch is off: (receiver afterwards, result) *)
+Definition op_inplace (ws : list pw) (x : obj) : obj := apply_all (resolve_all x ws) x.
+
+Definition op_not_inplace (ws : list pw) (n : nat) (x : obj) : obj * obj :=
+  let d := snd (copy x MCopy n) in
+  let w := resolve_all d ws in
+  (apply_all w x, apply_all w d).
+
+(* where the bodies of the methods that offer `inplace` write (read off
+   cfdm/data/data.py, mixin/propertiesdata.py, mixin/propertiesdatabounds.py,
+   core/field.py, field.py, domain.py): (cells, key) relative to the object
+   handed out by the clean-up call *)
+Definition C := "_components".
+Definition inplace_table : list (string * list (list string * string)) :=
+  [ ("Data",                 [([C], "'array'")]);
+    ("PropertiesData",       [([C], "'data'"); ([C; "'data'"; C], "'array'")]);
+    ("PropertiesDataBounds", [([C], "'data'"); ([C; "'data'"; C], "'array'");
+                              ([C; "'bounds'"; C; "'data'"; C], "'array'");
+                              ([C; "'interior_ring'"; C; "'data'"; C], "'array'")]);
+    ("Field",                [([C], "'data'"); ([C; "'data'"; C], "'array'");
+                              ([C; "'constructs'"], "_field_data_axes");
+                              ([C; "'constructs'"], "_construct_axes")]) ].
+
+Definition pws_of (l : list (list string * string)) (v : option obj) : list pw :=
+  map (fun pk => {| pw_path := fst pk; pw_key := snd pk; pw_val := v |}) l.
+
+(* Field.set_data(data, axes=, inplace=False)  (core/field.py:526-545): the
+   data axes are set on f = self.copy(), then the data.  [hoisted] is the
+   seeded variant that sets the axes on self before making the copy. *)
+Definition field_set_data (hoisted : bool) (x data axes : obj) (n : nat) : obj * obj :=
+  let wa := {| pw_path := [C; "'constructs'"]; pw_key := "_field_data_axes"; pw_val := Some axes |} in
+  let wd := {| pw_path := [C]; pw_key := "'data'"; pw_val := Some data |} in
+  if hoisted then
+    let x1 := apply_all (resolve x wa) x in
+    let d := snd (copy x1 MCopy n) in
+    (apply_all (resolve d wd) x1, apply_all (resolve d wd) d)
+  else op_not_inplace [wa; wd] n x.
 
 (* ---- the in-place protocol (cfdm/decorators.py:15-84) -------------------- *)
 (* A decorated method body either fails before it reaches
